@@ -148,6 +148,16 @@ func TestPrimitives(t *testing.T) {
 	want("fix/a.Allowed", "callers{raw}", Discharged)
 	want("fix/a.Rogue", "callers{raw}", Violated)
 	want("fix/a.ByValue", "callers{raw}", Violated)
+	// ... and a method called through a bound method value (`f := t.rawM; f()` names the wrapper rawM$bound)
+	mm, missing := p.StaticCallee("(*fix/a.T).rawM")
+	if len(missing) > 0 {
+		t.Fatal(missing)
+	}
+	msites := p.FindCalls(mm, nil)
+	msites = append(msites, p.FuncValueUses("(*fix/a.T).rawM")...)
+	c.CallerTable("rawM", msites, map[string]string{"(*fix/a.T).AllowedM": "the one reviewed caller"}, 1)
+	want("(*fix/a.T).AllowedM", "callers{rawM}", Discharged)
+	want("(*fix/a.T).ByBoundValue", "callers{rawM}", Violated)
 
 	// R11
 	for _, n := range []string{"(*fix/a.T).ErrCheckedOK", "(*fix/a.T).ErrDropped"} {
